@@ -35,7 +35,7 @@ def main():
         (client_common.build, [("c15", {"maxes": "2", "script": "2", "end2s": "3"}, 15 if q else 90, True)]),
         (server_common.build, [("c05", {"sessions": "2", "other": "single", "light": "1"}, 15 if q else 90, True), ("c01", {"faults": "1", "payloads": "1", "maxidx": "4"}, 20 if q else 120, True),
                                ("c18-ringconc", {"setters": "3"}, 8 if q else 30, True)]),
-        (proxy_common.build, [("c16", {"capacities": "2", "maxlen": "2"}, 15 if q else 90, True)]),
+        (proxy_common.build, [("c16", {"capacities": "2", "maxlen": "2"}, 15 if q else 90, True), ("c16-load", {}, 8 if q else 30, True)]),
         (safelog_common.build, [("c07-writers", {"writers": "2"}, 8 if q else 40, False)]),
     ]
     passes = []
